@@ -48,7 +48,12 @@ deriving DecidableEq, Repr, Inhabited
 inductive Inner | waiting | connected | connecting | delayDrop | delayed
 deriving DecidableEq, Repr, Inhabited
 
-inductive DialOutcome | ok (alpnH2 : Bool) | failConnect | failHandshake
+/-- What the protocol handshake produced for a successful attempt: the protocol the request asked for,
+    HTTP/2 chosen by ALPN, or a connection that cannot be shared whatever the request asked for. -/
+inductive Negotiated | asRequested | alpnH2 | notShared
+deriving DecidableEq, Repr
+
+inductive DialOutcome | ok (n : Negotiated) | failConnect | failHandshake
 deriving DecidableEq, Repr
 
 structure Dial where
@@ -269,10 +274,16 @@ def registerConnected (s : State) (c : Checkout) (cid : ConnId) : State × Poole
   if canShare s cid then (push s c.token cid, ⟨cid, 0, false⟩)
   else (s, ⟨cid, c.token, true⟩)
 
-/-- The protocol handshake produced a connection: HTTP/2 if the request asked for it or ALPN chose it. -/
-def newConn (s : State) (c : Checkout) (alpn : Bool) : State × ConnId :=
+/-- The kind of the connection a handshake produced: HTTP/2 if the request asked for it or ALPN chose
+    it, unless the protocol came back with a connection that cannot be shared. -/
+def connKind (mux : Bool) : Negotiated → Kind
+  | .asRequested => if mux then .h2 else .h1
+  | .alpnH2 => .h2
+  | .notShared => .h1
+
+def newConn (s : State) (c : Checkout) (alpn : Negotiated) : State × ConnId :=
   ({ s with nextConn := s.nextConn + 1,
-            conns := upd s.conns s.nextConn (some { origin := c.key, kind := if c.mux || alpn then Kind.h2 else Kind.h1 }) },
+            conns := upd s.conns s.nextConn (some { origin := c.key, kind := connKind c.mux alpn }) },
    s.nextConn)
 
 /-- `checked_out` for a connection that came out of the pool -/
